@@ -169,13 +169,14 @@ def load_theory_cache(filename, username="master"):
                 if item.error is None:
                     theory.thy.unchecked_extend(item.get_extension())
 
-        # Use this theory to parse the content of current theory
-        cache['timestamp'] = timestamp
+        # Use this theory to parse the content of current theory.
+        # The cache is updated only after all items are parsed, so that
+        # a load interrupted by an error is repeated the next time.
         data = load_json_data(filename, username)
-        cache['content'] = []
+        content = []
         for index, item in enumerate(data['content']):
             item = items.parse_item(item)
-            cache['content'].append(item)
+            content.append(item)
             if item.error is None:
                 exts = item.get_extension()
                 theory.thy.unchecked_extend(exts)
@@ -185,6 +186,8 @@ def load_theory_cache(filename, username="master"):
                     else:
                         name = ext.name
                     item_index[username][(ext.ty, name)] = (filename, timestamp, index)
+        cache['content'] = content
+        cache['timestamp'] = timestamp
 
     return cache
 
